@@ -56,6 +56,31 @@ CLAIMED["C13"] = dict(
     note="Domain as stated by the property: canonical torsion-free keys and R. Trusts the reference model.",
     technique="property-based testing (proptest): model-based + metamorphic (permutation, duplication, repetition)",
     design="3/C13")
+CLAIMED["C05"] = dict(
+    text="Differential search: one generated stream of requests covering every public operation of the three crates (union of the public-API generators of all other properties, plus large multiscalar/batch cases on regime boundaries) is replayed by 15 participants - release builds of the six back ends, two builds without precomputed tables, and the checked simd/avx512 builds under every forced run-time dispatch choice (serial, AVX2, IFMA) - and every response (bytes and None/Err/panic tags) must be identical wherever the operation exists. No model needed. Exploration level.",
+    note="Only configurations that run on this x86-64 host; 32-bit limbs are exercised through curve25519_dalek_bits=32 on x86-64. IFMA needs the nightly toolchain.",
+    technique="differential fuzzing across build configurations and forced dispatch with structured generators",
+    design="3/C05")
+CLAIMED["C11"] = dict(
+    text="Four layers in checked builds (debug assertions, overflow checks, guarded monitors asserting the documented lane preconditions at the entry of every AVX2/IFMA field method): (1) every field kernel of every back end from raw limbs at the documented admissible bound, with the documented output bound re-checked on the raw result; (2,3) group formulas (serial, AVX2, IFMA) started from coordinates whose representations sit at the stored-coordinate bound, incl. operands solved for so that inner products are -1..-4, compared with the same formulas on canonical representations (representation independence), no panic, no monitor hit; (4) the public request stream in each checked build must not panic and must equal the release build of the same back end. Worst cases are approached by construction, not bounded: exploration level.",
+    note="Sampling, not interval analysis (DESIGN.md section 5). Known finding avx2-neg-documented-bound is reported, its sliver excluded by construction.",
+    technique="property-based testing at contract boundaries: raw-limb generators, metamorphic representation independence, run-time bound monitors, checked-vs-release differential",
+    design="3/C11")
+CLAIMED["C15"] = dict(
+    text="Generated untrusted input into every decoding/verifying entry point in release builds (three back ends quick, eight builds thorough): slices of every length, array decoders, hash-to-group/scalar with chosen (pass-through digest) and solved-for exceptional Elligator inputs, X25519 and the birational conversions with every sign byte, all verifiers on adversarial and arbitrary triples incl. contexts > 255 bytes, batch verification on arbitrary/mismatched input, keypair import, serde deserialisers on structured and raw payloads, GroupEncoding; oracle: never a panic, and None/Err exactly where the models say malformed. Exploration level.",
+    note="A hang would be reported as exit 2 (watchdog), never as a violation. Trusts the reference models of C03/C06/C07/C09/C13/C16/C17.",
+    technique="property-based testing / fuzzing with structured and raw byte generators; totality + model oracle",
+    design="3/C15")
+CLAIMED["C16"] = dict(
+    text="All 11 serialisable types x {bincode, serde_json} (serde feature, never compiled by the baseline): serialised bytes must equal the canonical encoding exactly, deserialize(serialize(v)) = v, and Deserialize succeeds iff the native decoder accepts the same bytes - fed right-length valid/invalid (non-canonical scalar, undecodable Edwards/Ristretto), short, over-long, malformed JSON shapes and raw wire bytes. Exploration level.",
+    note="Trailing bytes after a complete bincode value are the format's concern and are not generated/asserted.",
+    technique="property-based testing: round trip + model-predicted accept/reject per payload shape",
+    design="3/C16")
+CLAIMED["C17"] = dict(
+    text="ff/group trait implementations (group feature, never compiled by the baseline) against the integer model: sqrt is Some exactly for residues (Legendre symbol) with r^2=x, invert None only for zero, ff 0.13's sqrt_ratio contract, from_repr(_vartime) iff < l, to_repr/is_odd/bits/FromUniformBytes, defining relations of MODULUS, TWO_INV, S, generator, ROOT_OF_UNITY(_INV), DELTA; GroupEncoding of EdwardsPoint/SubgroupPoint/RistrettoPoint on all encoding classes; SubgroupPoint admits exactly torsion-free points; clear_cofactor=[8]P; subgroup operators mirror the Edwards model. Exploration level.",
+    note="Generator-ness of MULTIPLICATIVE_GENERATOR is checked as: quadratic non-residue with the derived root-of-unity relations (DESIGN.md 3/C17 L).",
+    technique="property-based testing against a reference model / field axioms",
+    design="3/C17")
 
 ALL = ["C%02d" % i for i in range(1, 18)]
 REASON_PENDING = "check not built yet (see DESIGN.md build order); not claimed"
